@@ -2,8 +2,8 @@ package props
 
 import (
 	"fmt"
-	"strings"
 	"math/rand"
+	"strings"
 
 	"github.com/protobom/protobom/pkg/sbom"
 	"google.golang.org/protobuf/proto"
